@@ -906,6 +906,13 @@ def extract_type(sf, item, extra_derives=()):
                 if d in DERIVE_KEEP:
                     derives.append(d)
         text = text[:m.start()] + blank(seg) + text[j + 1:]
+    if "pubfields" in extra_derives:
+        # annotation: private fields are made `pub` so that specifications may mention them (visibility has no run-time meaning)
+        ob = text.index("{")
+        inner = text[ob + 1:text.rindex("}")]
+        inner2 = re.sub(r"(^|\n)(\s*)(?!pub\b)([a-z_][A-Za-z_0-9]*\s*:)", r"\1\2pub \3", inner)
+        text = text[:ob + 1] + inner2 + text[text.rindex("}"):]
+        extra_derives = [d for d in extra_derives if d != "pubfields"]
     derives += [d for d in extra_derives if d not in derives]
     if item.kind == "enum" and "PartialEq" in derives and "Structural" not in derives:
         derives.append("Structural")
@@ -1010,7 +1017,7 @@ class UnitBuilder:
                 sf = self.sf(part[1])
                 it = sf.find("type", part[2])
                 ex.add_src(strip_comments(sf.src[it.start:it.end]), sf.rel, sf.line_of(it.start))
-            elif kind in ("impl", "traitimpl", "trait"):
+            elif kind in ("impl", "traitimpl", "trait", "inherent_from_traitimpl"):
                 sf = self.sf(part[1])
                 owner_kind = "trait" if kind == "trait" else "impl"
                 own = sf.find(owner_kind, part[2])
@@ -1019,9 +1026,21 @@ class UnitBuilder:
                 header = strip_comments(sf.src[own.start:own.header_end])
                 rw = Rewriter("%s::%s %s" % (sf.rel, owner_kind, part[2]), sf.rel, sf.line_of(own.start), self.log)
                 header = rw.strip_attrs(header)
+                if kind == "inherent_from_traitimpl":
+                    # R21: a trait method emitted as an inherent method of the same type (same body); needed where Verus's
+                    # trait-dictionary termination check sees a cycle impl -> method body -> default method -> impl
+                    m = re.match(r"(\s*impl(?:\s*<[^>]*>)?)\s+[A-Za-z_0-9:]+\s+for\s+(.*)$", header.strip(), re.S)
+                    if not m:
+                        raise ExtractError("R21: cannot relocate %s" % part[2])
+                    header = "%s %s" % (m.group(1), m.group(2))
+                    self.log.append({"rule": "R21", "fn": "%s::<%s>" % (sf.rel, part[2]), "at": "%s:%d" % (sf.rel, sf.line_of(own.start)), "detail": "methods %s emitted as inherent methods" % (fns,)})
+                    kind = "traitimpl"
+                    relocated = True
+                else:
+                    relocated = False
                 ex.add_src(header.rstrip() + " {", sf.rel, sf.line_of(own.start))
                 okey = "%s::%s %s" % (sf.rel, owner_kind, part[2])
-                if okey in self.extra:
+                if okey in self.extra and not relocated:
                     ex.add_raw(self.extra[okey], label="side-car items of " + okey)
                 members = [m for m in own.members if m.kind == "fn"]
                 if fns != "*":
